@@ -197,9 +197,9 @@ type World struct {
 	MaxEnabled int
 	rootSpawns int
 	// Hooks are the function-entry observations of this execution.
-	Hooks []HookEvent
-	hashers    []stateHasher
-	words      map[interface{}]uint64
+	Hooks   []HookEvent
+	hashers []stateHasher
+	words   map[interface{}]uint64
 }
 
 type stateHasher interface{ stateHash() uint64 }
